@@ -13,43 +13,45 @@ def gen_pool_exhaustion(rng):
     for s in subs:
         sc.sub(s, [("t", rng.choice([1, 2]))])
     sc.ops.append(f"setpool 0 {lo} {hi}")
-    held = []          # (client, qos) deliveries outstanding
-    free = size
+    held = {s: 0 for s in subs}   # deliveries outstanding per subscriber; None = unknown (after a partial fan-out)
     stalls = 0         # each publish that finds no identifier stalls the writer for 0.5 s: keep the script well under
                        # the 3 s acknowledgement deadline, or the broker's own ticker starts retransmitting
+
+    def free_ids():
+        if any(v is None for v in held.values()):
+            return None
+        return size - sum(held.values())
+
     for _ in range(rng.choice([5, 8, 12])):
         r = rng.random()
-        if free < len(subs) and stalls >= 2:
+        free = free_ids()
+        if (free is None or free < len(subs)) and stalls >= 2:
             r = 0.7
         if r < 0.6:
-            if free < len(subs):
+            if free is None or free < len(subs):
                 stalls += 1
             sc.mid += 1
             payload = "%02x" % (sc.mid % 256)
             exp = {pubr: [f"puback({sc.mid})"]}
-            # recipients are served in an order the Go map decides; with fewer free ids than recipients the oracle is silent
+            # recipients are served in an order the Go map decides; with fewer free ids than recipients the oracle is
+            # silent, and stays silent about identifiers until every subscriber has acknowledged everything it holds
             need = len(subs)
-            if free >= need:
+            if free is not None and free >= need:
                 for s in subs:
                     q = sc.clients[s]["subs"]["t"]
                     exp.setdefault(s, []).append(pubstr("t", payload, q, 0, 0))
-                    held.append(s)
-                free -= need
+                    held[s] += 1
                 sc.emit(f"pub {pubr} t {payload} 1 0 0 {sc.mid}", exp, "delivery-with-free-identifiers")
             elif free == 0:
                 sc.emit(f"pub {pubr} t {payload} 1 0 0 {sc.mid}", exp, "delivery-without-free-identifier")
             else:
                 sc.ops.append(f"pub {pubr} t {payload} 1 0 0 {sc.mid}")
-                free = 0
-                held += subs[:]
-        elif r < 0.9 and held:
+                for s in subs:
+                    held[s] = None
+        elif r < 0.9 and any(v != 0 for v in held.values()):
             s = rng.choice(subs)
-            n = sum(1 for h in held if h == s)
-            q = sc.clients[s]["subs"]["t"]
             sc.ops.append(f"ackall {s}")
-            held = [h for h in held if h != s]
-            free = size - len(held) if free + n <= size else free
-            free = min(size, size - len(held))
+            held[s] = 0
         else:
             sc.ops.append("pool 0")
     sc.ops.append("pool 0")
@@ -62,5 +64,5 @@ def gen_pool_exhaustion(rng):
 def add_pool_suites(c, samples):
     n = 6 if c.tier == "quick" else 60
     from checks.brokerlib import corpus
-    scs = corpus(c.rng, ["ids-return-after-recipient-vanished"]) + [gen_pool_exhaustion(c.rng) for _ in range(n)]
+    scs = corpus(c.rng, ["ids-return-after-recipient-vanished", "takeover-with-unacked-delivery"]) + [gen_pool_exhaustion(c.rng) for _ in range(n)]
     run_scenarios(c, "writer-tiny-pool-exhaustion", scs, samples)
